@@ -23,6 +23,7 @@ EXPLANATION = (
     "unification; a transposition that does not matter because the operand is symmetric is kind-correct "
     "and silent."
     ' KIND-2 positive witnesses: tril / triu of an array with orbital axes (selection by explicit orbital index is not covariant); a reshape that joins axes (O, S) into the 2*norb spin-orbital axis (interleaved instead of [up | dn] blocks); numpy dot with a rank-3 right operand is typed as left[:-1] + right[:-2] + right[-1:], not as a batched product. An array the interpreter cannot type is noted, not reported. '
+    ' MUT-1: rotate_orbs does not overwrite the Hamiltonian it is handed (its stores act on the traced copy only while it is jit-decorated). '
 )
 NOT_DECIDED = "invariance of energies, force biases and overlaps under the rotation (numerical)."
 TECHNIQUE = "static analysis: axis-kind (dimension-type) inference with basis tags over einsum / dot / reshape sites"
